@@ -25,7 +25,7 @@
   over the answering model, which is not done. For those verdicts the property is covered by the
   differential check only (audit tags `C03:*` on every generated case).
 -/
-import QV.Proofs.ServerProps
+import QV.Proofs.QuestionOctets
 
 namespace QV.C03
 open QV QV.Spec.Server QV.ServerScan
@@ -114,6 +114,32 @@ theorem C03_echo_partial (cfg : Server.Cfg) (tr : Server.Transport) (now bufLen 
     apply List.take_left'
     simp [Writer.u16be_length]
 
+/-- **Corollary (octet for octet).** If moreover the request's QNAME is not compressed (the octets
+    at offset 12 are the decoded QNAME), the response's question section is octet-for-octet the
+    request's: QNAME with its case preserved, QTYPE, QCLASS. -/
+theorem C03_question_octets_partial (cfg : Server.Cfg) (tr : Server.Transport) (now bufLen : Nat) (req : Bytes)
+    (hbuf : minBuf tr cfg.payload ≤ bufLen) (hpay : 512 ≤ cfg.payload) (hreq : req.size ≤ Rdata.USIZE_MAX)
+    (hr : (specScanWith (catKind cfg) cfg.payload req).respond = true)
+    (hv : noDataV (specScanWith (catKind cfg) cfg.payload req).verdict = true)
+    (q : Spec.DQuestion) (hq : (specScanWith (catKind cfg) cfg.payload req).question = some q)
+    (hlit : (req.extract 12 (12 + q.qname.length)).toList = q.qname) :
+    ∃ b, Server.handleMessage cfg tr now bufLen req = .ok (some b) ∧
+      (b.toList.drop 12).take (q.qname.length + 4) = (req.extract 12 (12 + q.qname.length + 4)).toList := by
+  obtain ⟨b, hb, _, hqe⟩ := C03_echo_partial cfg tr now bufLen req hbuf hpay hreq hr hv
+  rw [hq] at hqe
+  refine ⟨b, hb, ?_⟩
+  rw [hqe.2]
+  have hsq : ∃ nx, Spec.specQuestionAt req 12 = some (q.qname, q.qtype, q.qclass, nx) := by
+    rw [specScanWith_eq] at hq hr
+    by_cases h12 : req.size < 12
+    · simp only [h12, if_true] at hr; cases hr
+    · by_cases hqr : (req.getD 2 0).toNat ≥ 128
+      · simp only [h12, hqr, if_false, if_true] at hr; cases hr
+      · simp only [h12, hqr, if_false] at hq
+        exact specBody_question _ _ _ q hq
+  obtain ⟨nx, hsq⟩ := hsq
+  exact question_octets_eq_request req q.qname q.qtype q.qclass nx hsq hlit
+
 /-! ### non-vacuity: concrete requests -/
 
 /-- `. IN NS`, RD set, opcode QUERY; the catalog is empty ⇒ REFUSED -/
@@ -144,5 +170,10 @@ example : Server.handleMessage exCfg .udp 0 1232 #[0, 7, 0x80, 0, 0, 1, 0, 0, 0,
 example : Server.handleMessage exCfg .udp 0 1232 #[0, 7, 0, 0, 0, 2, 0, 0, 0, 0, 0, 0] = .ok none :=
   (C03_no_response_iff exCfg .udp 0 1232 _ (by decide) (by decide)).mpr (Or.inr (Or.inr (by decide)))
 example : ¬ (exQuery.size < 12 ∨ (exQuery.getD 2 0).toNat ≥ 128 ∨ hdr exQuery 4 > 1) := by decide
+
+/-- a mixed-case, uncompressed QNAME `wWw.A.`: the hypotheses of the octet-for-octet corollary hold -/
+def exMixed : Bytes := #[0, 9, 0, 0, 0, 1, 0, 0, 0, 0, 0, 0, 3, 119, 87, 119, 1, 65, 0, 0, 1, 0, 1]
+example : (specScanWith (catKind exCfg) 1232 exMixed).question = some ⟨[3, 119, 87, 119, 1, 65, 0], 1, 1⟩ ∧
+    (exMixed.extract 12 (12 + 7)).toList = [3, 119, 87, 119, 1, 65, 0] := by decide +kernel
 
 end QV.C03
